@@ -501,6 +501,20 @@ class Store:
                 str(self.default), str(new_default), str(new_default))
         return new_default
 
+    def _check_dimensions(self, quantity):
+        """Check a quantity (a default or value of this variable) against
+        the units the variable already has.
+
+        Raises:
+            ValueError: If the quantity cannot be converted to them.
+        """
+        if self.units is not None and not quantity.is_compatible_with(
+                self.units):
+            raise ValueError(
+                f"Incompatible schema assignment at {self.path_for()}. "
+                f"Trying to assign the quantity {quantity} to a variable "
+                f"that already has the units {self.units}.")
+
     def _check_schema(self, schema_key, new_schema):
         """Check a new schema value.
 
@@ -702,6 +716,7 @@ class Store:
             if '_default' in config:
                 self.default = self._check_default(config.get('_default'))
                 if isinstance(self.default, Quantity):
+                    self._check_dimensions(self.default)
                     self.units = self.units or self.default.units
                     self.serializer = (self.serializer or
                                        serializer_registry.access(
@@ -709,6 +724,7 @@ class Store:
                 elif isinstance(self.default, list) and \
                         len(self.default) > 0 and \
                         isinstance(self.default[0], Quantity):
+                    self._check_dimensions(self.default[0])
                     self.units = self.units or self.default[0].units
                     self.serializer = (self.serializer or
                                        serializer_registry.access(
@@ -718,6 +734,7 @@ class Store:
                 self.value = self._check_schema(
                     'value', config.get('_value'))
                 if isinstance(self.value, Quantity):
+                    self._check_dimensions(self.value)
                     self.units = self.value.units
 
             if '_updater' in config:
